@@ -35,6 +35,19 @@ SHA1_LENGTH = [12, 40]
 LOG = logging.getLogger(__name__)
 
 
+def _describe(err):
+    """Return str(err), or a placeholder if the exception cannot be printed.
+
+    The worker thread must survive whatever a job raises, including an
+    exception whose __str__ is broken (e.g. returns None).
+
+    """
+    try:
+        return str(err)
+    except Exception:
+        return '<unprintable %s>' % type(err).__name__
+
+
 class BertE(JobDispatcher):
     def __init__(self, settings):
         self.settings = settings
@@ -83,9 +96,9 @@ class BertE(JobDispatcher):
 
             if not isinstance(err, (BertE_Exception, InternalException)):
                 LOG.exception("Job '%s' finished with an error.", job)
-                job.details = str(err)
+                job.details = _describe(err)
             elif isinstance(err, JobFailure):
-                job.details = str(err)
+                job.details = _describe(err)
                 LOG.info("API job '%s' finished with an error: %s",
                          job, job.details)
         finally:
